@@ -65,7 +65,15 @@ EXPLANATION = (
     "download_version, ...) are not used there; listed exception: the size probes get_current_size / "
     "get_size_of_best_version. Still undecided: unserialised reads by other holders of a file node (web GET, SFTP and the "
     "repairer use get_best_readable_version / download_version by design), self._node.check/check_and_repair (C14), work "
-    "split off into module-level functions or other classes, and a file node handed to a helper that reads it.")
+    "split off into module-level functions or other classes, and a file node handed to a helper that reads it. "
+    "Shapes read as equivalent (added after the refactors seeded as C20-I / C19-I): in (6)/(7)/(10) a function decorated with "
+    "inlineCallbacks waits for exactly the Deferreds it yields (`yield d`, `x = yield d`, `d = ..; yield d`), so there a "
+    "piece of work must be yielded - merely starting it, or returning its Deferred as the generator's result, is reported; "
+    "in (4) a method reached through getattr(self, <name>) counts as used by that code when <name> is the loop variable over "
+    "one column of a module-level constant table that is used for nothing else (any other getattr(self, ..) in NodeMaker is "
+    "an analysis error), and private NodeMaker methods used only from inside _create_from_single_cap count as part of it. "
+    "Not followed (analysis error, not a verdict): create_from_cap split into helper methods (memo lookup through "
+    "self._node_cache.get, key / node built in helpers).")
 TECHNIQUE = ("static analysis: return-shape and who-may-call sweeps, Deferred registration model, CFG path rules, "
              "reaching definitions, normal-form value identity, intra-class reachability")
 
@@ -680,6 +688,26 @@ def _stmt_of(parent, x):
     return x
 
 
+def _inline_yields(g):
+    """The ``yield`` expressions of `g` when it is a ``@defer.inlineCallbacks`` generator (the decorator drives the
+    generator and waits for every Deferred it yields before resuming it: ``yield d`` / ``x = yield d`` is the sequencing
+    form of returning / chaining d), else None.  An undecorated generator is not such a function."""
+    node = getattr(g, "node", None)
+    if not isinstance(node, ast.FunctionDef):
+        return None
+    decorated = False
+    for dec in node.decorator_list:
+        if isinstance(dec, ast.Call):
+            dec = dec.func
+        p = attr_path(dec) or ""
+        if p.split(".")[-1] == "inlineCallbacks":
+            decorated = True
+    if not decorated:
+        return None
+    ys = [x for x in func_own_nodes(g) if isinstance(x, ast.Yield) and x.value is not None]
+    return ys or None
+
+
 def _awaited_body(r, idx, top, g, is_work, what):
     cfg = g.cfg()
     rets = cfg.find(is_return)
@@ -687,6 +715,18 @@ def _awaited_body(r, idx, top, g, is_work, what):
     for n in rets:
         if n.ast.value is not None:
             returned_names |= {x.id for x in ast.walk(n.ast.value) if isinstance(x, ast.Name)}
+    inline_ys = _inline_yields(g)
+    if inline_ys is not None:
+        # an inlineCallbacks generator: the Deferreds that are waited for are the yielded ones, not the returned value
+        # (`return d` hands a Deferred back as a plain result without waiting for it)
+        returned_names = set()
+        for y in inline_ys:
+            e = y.value
+            while isinstance(e, ast.Call) and isinstance(e.func, ast.Attribute) and e.func.attr in (
+                    "addCallback", "addErrback", "addBoth", "addCallbacks"):
+                e = e.func.value
+            if isinstance(e, ast.Name):
+                returned_names.add(e.id)
     work = []
     attached = []          # registration calls that hang a work-carrying callback on the returned Deferred
 
@@ -769,7 +809,9 @@ def _awaited_body(r, idx, top, g, is_work, what):
                     ok = isinstance(base, ast.Name) and base.id in returned_names
                     if not ok:
                         st = _stmt_of(parent, x)
-                        if isinstance(st, ast.Return) and st.value is not None and _in_chain(st.value, x):
+                        if inline_ys is not None and any(_in_chain(y.value, x) for y in inline_ys):
+                            ok = True
+                        elif inline_ys is None and isinstance(st, ast.Return) and st.value is not None and _in_chain(st.value, x):
                             ok = True
                         elif isinstance(st, ast.Assign) and _in_chain(st.value, x) and any(
                                 isinstance(t, ast.Name) and t.id in returned_names for t in st.targets):
@@ -797,8 +839,10 @@ def _awaited_body(r, idx, top, g, is_work, what):
         return
     for c in work:
         ok = False
+        if inline_ys is not None:
+            ok = any(_in_value_position(y.value, c) for y in inline_ys)
         for n in rets:
-            if n.ast.value is not None and _in_value_position(n.ast.value, c):
+            if inline_ys is None and n.ast.value is not None and _in_value_position(n.ast.value, c):
                 ok = True
         if not ok:
             # d = <work>; ...; return d   (possibly through d.addCallback chains)
@@ -809,7 +853,7 @@ def _awaited_body(r, idx, top, g, is_work, what):
         r.require(ok, g, g.loc(c), "%s starts %s but does not return its Deferred: %s would be "
                   "reported finished (and the next one started) while that work is still running" % (
                       short(g), call_name(c) or call_tail(c), what))
-    if work or attached:
+    if (work or attached) and inline_ys is None:
         def valued_return(n):
             return is_return(n) and n.ast.value is not None and not (isinstance(n.ast.value, ast.Constant)
                                                                       and n.ast.value.value is None)
@@ -1105,14 +1149,144 @@ def _memo_rule(r, idx, cg):
         if kind == "call":
             r.violation(f, f.loc(nd), "%s constructs a file node through filenode_class" % short(f))
     nm = idx.cls(NM)
-    for tail, ok_callers in (("_create_mutable", {"_create_from_single_cap"}),
-                             ("_create_from_single_cap", {"create_from_cap", "_create_from_single_cap"})):
-        uses = _method_uses(idx, cg, tail, nm)
+    # methods looked up by name: getattr(self, <name from a constant module-level table>) denotes each listed method
+    disp = _getattr_dispatch(idx, nm)
+    for (g, x, names, _inv) in disp:
+        if names is None:
+            raise AnchorVanished("%s looks a method of the NodeMaker up with %s, whose name is not drawn from a constant "
+                                 "module-level table: who reaches the node factories cannot be decided" % (short(g), src(g, x)))
+
+    def uses_of(tail):
+        return _method_uses(idx, cg, tail, nm) + [(g, x, "call" if inv else "ref") for (g, x, names, inv) in disp
+                                                  if tail in names]
+    # steps split off the single-cap factory (private methods used only from inside it) run exactly where it runs
+    inside_single = {"_create_from_single_cap": True}
+
+    def in_single(k, trail=()):
+        if k not in inside_single:
+            m = nm.methods.get(k)
+            ok = _is_func(m) and k.startswith("_") and not k.startswith("__") and k not in trail
+            if ok:
+                us = uses_of(k)
+                ok = bool(us) and all(kind == "call" and _in_class(f, nm) and in_single(_top_method(f).name, trail + (k,))
+                                      for (f, _nd, kind) in us)
+            if trail and not ok:
+                return False            # may only be a cycle artefact: do not memoise
+            inside_single[k] = ok
+        return inside_single[k]
+
+    class _Callers:
+        def __init__(self, extra):
+            self.extra = extra
+
+        def __contains__(self, k):
+            return k in self.extra or in_single(k)
+    for tail, ok_callers in (("_create_mutable", _Callers(())),
+                             ("_create_from_single_cap", _Callers(("create_from_cap",)))):
+        uses = uses_of(tail)
         if not uses:
             raise AnchorVanished("no caller of NodeMaker.%s" % tail)
         for (f, nd, kind) in uses:
             r.require(kind == "call" and _in_class(f, nm) and _top_method(f).name in ok_callers, f, f.loc(nd),
                       "%s reaches %s without going through create_from_cap's memo" % (short(f), tail))
+
+
+def _table_strings(g, e, nodes):
+    """The strings expression `e` (in body `g`) can denote: a string constant, or a loop / comprehension variable that
+    runs over one column of a module-level table (list / tuple of rows, or a dict through .items() / its keys) which is
+    bound once and used for nothing but such iteration.  None when that cannot be established."""
+    if isinstance(e, ast.Constant) and isinstance(e.value, str):
+        return frozenset([e.value])
+    if not isinstance(e, ast.Name):
+        return None
+    binders = []
+    for x in nodes:
+        if isinstance(x, ast.For):
+            binders.append((x.target, x.iter))
+        elif isinstance(x, (ast.ListComp, ast.SetComp, ast.GeneratorExp, ast.DictComp)):
+            binders += [(c.target, c.iter) for c in x.generators]
+    stores_ = [x for x in nodes if isinstance(x, ast.Name) and x.id == e.id and isinstance(x.ctx, ast.Store)]
+    hits = [(t, it) for (t, it) in binders if any(y is st for st in stores_ for y in ast.walk(t))]
+    if len(stores_) != 1 or len(hits) != 1 or e.id in g.params:
+        return None
+    target, it = hits[0]
+    if isinstance(target, ast.Name):
+        col = None
+    elif isinstance(target, (ast.Tuple, ast.List)):
+        cols = [i for i, t in enumerate(target.elts) if isinstance(t, ast.Name) and t.id == e.id]
+        if len(cols) != 1:
+            return None
+        col = cols[0]
+    else:
+        return None
+    via = None
+    if isinstance(it, ast.Call) and isinstance(it.func, ast.Attribute) and not it.args and not it.keywords \
+            and it.func.attr in ("items", "keys"):
+        via, it = it.func.attr, it.func.value
+    if not isinstance(it, ast.Name):
+        return None
+    mod = g.module
+    shadow = g
+    while shadow is not None:           # the table name must be the module-level one
+        if it.id in shadow.params or any(isinstance(y, ast.Name) and y.id == it.id and isinstance(y.ctx, ast.Store)
+                                         for y in func_own_nodes(shadow, into_lambda=True)):
+            return None
+        shadow = shadow.parent
+    vals = mod.assigns.get(it.id) or []
+    if len(vals) != 1 or it.id in mod.imports:
+        return None
+    # every other use of the table in the module must be an iteration of the same kind (no .append, no re-export)
+    iter_ids = set()
+    for y in ast.walk(mod.tree):
+        its = []
+        if isinstance(y, ast.For):
+            its = [y.iter]
+        elif isinstance(y, (ast.ListComp, ast.SetComp, ast.GeneratorExp, ast.DictComp)):
+            its = [c.iter for c in y.generators]
+        for z in its:
+            if isinstance(z, ast.Call) and isinstance(z.func, ast.Attribute) and z.func.attr in ("items", "keys", "values"):
+                z = z.func.value
+            iter_ids.add(id(z))
+    for y in ast.walk(mod.tree):
+        if isinstance(y, ast.Name) and y.id == it.id and isinstance(y.ctx, ast.Load) and id(y) not in iter_ids:
+            return None
+    table = vals[0]
+    if isinstance(table, ast.Dict):
+        if via == "items" and col == 0 or via == "keys" and col is None or via is None and col is None:
+            cells = table.keys
+        elif via == "items" and col == 1:
+            cells = table.values
+        else:
+            return None
+    elif isinstance(table, (ast.List, ast.Tuple)) and via is None:
+        if col is None:
+            cells = table.elts
+        else:
+            if not all(isinstance(row, (ast.Tuple, ast.List)) and len(row.elts) > col for row in table.elts):
+                return None
+            cells = [row.elts[col] for row in table.elts]
+    else:
+        return None
+    if not cells or not all(isinstance(c, ast.Constant) and isinstance(c.value, str) for c in cells):
+        return None
+    return frozenset(c.value for c in cells)
+
+
+def _getattr_dispatch(idx, ci):
+    """[(body, the getattr Call, frozenset of method names | None, result called on the spot)] for every
+    ``getattr(self, <name>, ..)`` in the methods of `ci`."""
+    out = []
+    for m in ci.methods.values():
+        if not _is_func(m):
+            continue
+        for g in _bodies(m):
+            nodes = list(func_own_nodes(g, into_lambda=True))
+            invoked = {id(c.func) for c in nodes if isinstance(c, ast.Call)}
+            for x in nodes:
+                if isinstance(x, ast.Call) and isinstance(x.func, ast.Name) and x.func.id == "getattr" and len(x.args) >= 2 \
+                        and isinstance(x.args[0], ast.Name) and x.args[0].id == "self":
+                    out.append((g, x, _table_strings(g, x.args[1], nodes), id(x) in invoked))
+    return out
 
 
 def _preds_closure(cfg, n):
